@@ -37,6 +37,7 @@ class Trace:
         self.tls = threading.local()
         self.enabled = True
         self.proxies = 0
+        self.execs = {}               # first positional argument (if a str) -> (object's lock token, request's token) at dispatch
         self.sizes = []               # (kind, pickled size) of every message a connection put on the wire
         self.lock = threading.Lock()
 
@@ -484,6 +485,12 @@ def installed():
                 t.add(f"iface {i} {obj} {ns}", "ok")
             rec = t.add(f"exec {i} {obj} {_tok(self._locking_token)} {_tok(request.lock_token)} {request.method_name} "
                         f"{addr4(request)} {request.request_id}")
+            try:
+                a0 = request.method_args[0] if request.method_args else None
+                if isinstance(a0, str):
+                    t.execs[a0] = (self._locking_token, request.lock_token)
+            except Exception:  # noqa
+                pass
             st = t.stack()
             frame = {"kind": "exec", "unknown": False}
             st.append(frame)
